@@ -13,7 +13,8 @@ EXPLANATION = (
     "through setattr. Residual: mutation through NumPy views the user holds; aliasing through objects stored inside Config (op_out etc. are references by design)."
     ' Added after the third round of seeded changes: R7 no function writes class-level state; status records are replaced only in the constructor (C04.R3 ownership).'
     ' Added after the fourth round of seeded changes: R8 objects carry only the documented attributes and no function writes module-level containers (no caches / memos that go stale); R9 no function returns one of its operands as the result object and the method routes converge with their configuration defaults (C15.R1).'
-    ' Added after the fifth round of seeded changes: C04.R7; C20.R8 also forbids mutable default arguments and private attributes hung on operands (x._cache, x.__dict__[...]).')
+    ' Added after the fifth round of seeded changes: C04.R7; C20.R8 also forbids mutable default arguments and private attributes hung on operands (x._cache, x.__dict__[...]).'
+    ' Added after the sixth round of seeded changes: R8 also forbids writes into class-level containers, directly or through a local alias (a memo shared by every object).')
 ASSUMPTIONS = ["copy.deepcopy recursively copies dicts, lists, ndarrays and instances; copy.copy / Fxp.copy() copy one level (lemma)",
                "ndarray.astype / np.array copy unless copy=False (lemma)"]
 TRUSTED = ["CPython ast", "freshness lattice of DESIGN A7"]
